@@ -4,6 +4,7 @@
 # 2. in a private copy of /verif (/tmp/seedrun, wired to its own worktree of /repo): apply the change, run ./check
 # 3. store under /verif/seeded/<ID>_<N>/
 ID="$1"; shift; CHECKS="${@:-$ID}"
+OFF=${SEED_OFFSET:-0}   # round 2 of a property: SEED_OFFSET=3 stores mutations 1..3 as <ID>_4..<ID>_6
 W=/tmp/seed_$ID; S=$W/SEEDS
 R=/tmp/seedrun
 if [ ! -d $R ]; then /verif/tools/mkcopy.sh $R >/dev/null; fi
@@ -11,7 +12,8 @@ rsync -a --exclude .git --exclude work --exclude replays --exclude repo --exclud
 git -C $R/repo checkout -q --detach $(git -C /repo rev-parse HEAD) 2>/dev/null
 for N in 1 2 3; do
   [ -f $S/mutation_$N.diff ] || continue
-  D=/verif/seeded/${ID}_$N; mkdir -p $D
+  M=$((N+OFF)); D=/verif/seeded/${ID}_$M; mkdir -p $D
+  cp $S/README.md $D/README.md 2>/dev/null
   cp $S/mutation_$N.diff $D/patch.diff; cp $S/demo_$N.rs $D/demo.rs
   # --- 1. confirm in the seed worktree
   cd $W && git checkout -q -- . && git clean -fdq tests/ 2>/dev/null
@@ -34,7 +36,7 @@ for N in 1 2 3; do
     done
     (cd $R/repo && git checkout -q -- .)
   else res="patch does not apply to /repo HEAD"; fi
-  python3 - "$D" "$ID" "$N" "$applied" "$clean" "$mutated" "$base" "$res" <<'PY'
+  python3 - "$D" "$ID" "$M" "$applied" "$clean" "$mutated" "$base" "$res" <<'PY'
 import json,sys
 d,pid,n,applied,clean,mut,base,res=sys.argv[1:9]
 json.dump({'property':pid,'mutation':int(n),'patch_applies':applied,'demo_on_clean_tree':clean,'demo_with_change':mut,
